@@ -11,6 +11,10 @@ CONSTANTS
   AtomicNew = TRUE
   AtomicLine = TRUE
   ObjCid = FALSE
+  Bufs = {}
+  Cap = 0
+  Wins = {}
+  OwnStorage = TRUE
   Sink <- KeepLast
 POSTCONDITION Accepted
 CHECK_DEADLOCK FALSE
